@@ -310,6 +310,11 @@ def finish(ctx, level, level_text, rule, assumptions, pending=(), partial=(), ex
         cov["samples"] = ["(no cases generated: the run stopped at a broken obligation)"]
     if cov["distinct_nontrivial"] < 2:
         cov["distinct_nontrivial"] = max(cov["distinct_nontrivial"], 0)
+    if cov["discharged"] < 1:
+        # the proofs did not re-check in this run: this is not proof-level evidence
+        level = "other"
+        cov["explanation"] = ("the proof obligations did not re-check against the current source in this run; "
+                              "see 'breaks'. The run reports a violation.")
     ev = {
         "property_id": ctx.prop, "tier": ctx.tier, "seed": ctx.seed, "level": level,
         "coverage": cov, "assumptions": list(assumptions), "wall_s": round(time.time() - ctx.t0, 2),
